@@ -445,6 +445,9 @@ def partitions(tier, seed):
             P.append(_stack_part(asgi, (5, 7), not bool(asgi), True, 2, 2, 200))
             P.append(_stack_part(asgi, (4,), True, True, 2, 1, 120, 1 + asgi))
             P.append(_stack_part(asgi, (4,), True, True, 1, 2, 120, 2 - asgi))
+            # hooks of one kind only on an inheriting subclass: the other kind must not be what makes the responder visible
+            P.append(_stack_part(asgi, (4,), True, True, 1 + asgi, 0, 100, 2))
+            P.append(_stack_part(asgi, (4,), True, True, 0, 2 - asgi, 100, 2))
     else:
         for m0 in range(1, 8):
             for m1 in range(1, 8):
@@ -459,6 +462,8 @@ def partitions(tier, seed):
                 P.append(_stack_part(asgi, (5, 7, 3), independent, True, 0, 0, 1500))
                 for placement in (1, 2):
                     P.append(_stack_part(asgi, (7,), independent, True, 2, 2, 300, placement))
+                    P.append(_stack_part(asgi, (7,), independent, True, 2, 0, 300, placement))
+                    P.append(_stack_part(asgi, (7,), independent, True, 0, 2, 300, placement))
     ls = [(3, 3), (1, 2), (3, 1, 2)] if q else [(a, b, c) for a in range(1, 4) for b in range(1, 4) for c in range(1, 4)]  # 0 = no method: falcon rejects such a component
     for masks in ls:
         src = '''
